@@ -9,6 +9,8 @@ use std::io::{BufRead, BufReader, Write};
 use std::process::{Child, ChildStdin, ChildStdout, Command, Stdio};
 
 pub struct C17 {
+    /// property this stage belongs to ("C17", or "C18"/"C19" for their ASan stages)
+    pub id: &'static str,
     pub stage: &'static str,
     /// "solve" | "cpp" | "rust"
     pub kind: &'static str,
@@ -155,7 +157,7 @@ pub fn shutdown_workers() {
 
 impl Property for C17 {
     fn id(&self) -> &'static str {
-        "C17"
+        self.id
     }
     fn stage(&self) -> &'static str {
         self.stage
@@ -170,6 +172,7 @@ impl Property for C17 {
     fn rule(&self) -> String {
         match self.kind {
             "solve" => "tape -> universe expressible through the C++ interface (no Unknown, missing = empty list, hints as list; requirements, constraints, soft requirements, unions, favored/locked/excluded) solved twice: through resolvo::solve with a C++ DependencyProvider (built against the current headers; the provider constructs its Vector/String results in several generated styles) and through the Rust API with the equivalent provider; solution vector or error text must be identical. Runs under ASan (Rust+C++), UBSan traps (C++) and a ledger allocator that checks every dealloc layout and per-case leaks. Non-trivial: >=3 get_candidates, filter and get_dependencies callbacks crossed the boundary and the case is unsat or has >=3 solvables.".into(),
+            "c18" | "c19" => "the same histories as the main stage, evaluated inside the AddressSanitizer-instrumented child process (nightly build of resolvo with -Zsanitizer=address and a ledger allocator): an out-of-bounds, dangling or mismatched-layout access in the unsafe container code aborts the child and is reported with the sanitizer's stack.".into(),
             "cpp" => "tape -> history of up to 40 operations over a register file of resolvo::Vector<SolvableId>, resolvo::String and resolvo::Vector<String> in C++ (all constructors, copy construction, copy/move assignment between any two registers incl. the same one, push_back, clear, index, iterate, compare, Slice conversion, hand to Rust and back where Rust reads / clones+pushes / rebuilds via FromIterator / replaces) against a Rust model that predicts every register after every step; ASan + UBSan traps + ledger allocator give the memory-safety verdict. Non-trivial: a shared-then-mutated container and >=1 boundary crossing.".into(),
             _ => "tape -> history of up to 50 operations on resolvo_cpp's Rust Vector<u32>, Vector<String> and String (with_capacity, push past capacity, clone, clone+push => detach, into_iter shared/unshared fully and partially consumed, FromIterator with under- and over-reporting size_hint, swap, drop) against Vec/String models after every step, under ASan + ledger allocator. Non-trivial: a shared-then-mutated container and a partially consumed into_iter.".into(),
         }
@@ -198,6 +201,10 @@ impl Property for C17 {
                             Some("boundary-crossing") => rep.labels.push("boundary-crossing"),
                             Some("shared-then-mutated") => rep.labels.push("shared-then-mutated"),
                             Some("partial-into-iter") => rep.labels.push("partial-into-iter"),
+                            Some("chunk-boundaries>=2") => rep.labels.push("chunk-boundaries>=2"),
+                            Some("non-initial-segment") => rep.labels.push("non-initial-segment"),
+                            Some("id>=128") => rep.labels.push("id>=128"),
+                            Some("unset") => rep.labels.push("unset"),
                             _ => {}
                         }
                     }
